@@ -788,6 +788,57 @@ class Check:
     def replay(self, path):
         notes = self.build()
         text = open(path).read()
+        base = os.path.basename(path)
+        if base.endswith('.txt'):
+            # a note (broken proof obligation, race summary, timeout): re-running the check is the replay
+            print(text[:3000])
+            print('replay: %s is a report, not a trace; re-run `bin/check %s %s` to re-evaluate it' % (path, self.pid, self.tier))
+            return 1
+        if '-vamh-' in base or '/vamh/corpus/' in path:
+            rc, out, err = sh([B + '/vamh', 'replay', path], timeout=900)
+            print(out[-3000:])
+            # a DIVERGENCE only says that the code no longer behaves as when the trace was recorded;
+            # the verdict is whether an oracle fails NOW
+            m = re.search(r'(\d+) distinct oracle failures', out)
+            fails = [l for l in out.split('\n') if 'ORACLE-FAIL' in l] if (m is None or int(m.group(1)) > 0) else []
+            if m is None:
+                fails.append('vamh replay produced no verdict')
+            drv = B + '/ocaml/drv_vamh'
+            mism = False
+            if '-corr-' in base and os.path.exists(drv):
+                impl = [l for l in text.split('\n') if not l.startswith(('VIOL', 'NOTE', 'ORACLE-FAIL', '#'))]
+                rc2, mout, merr = sh([drv, path], timeout=600)
+                mism = impl != mout.split('\n')
+                if mism:
+                    print('MISMATCH: whole-allocator model and recorded implementation trace differ')
+            if fails or mism:
+                print('VIOLATION property=%s replay=%s' % (self.pid, path))
+                return 1
+            print('replay: no oracle failure, no mismatch')
+            return 0
+        for eng in ('dfh', 'devh', 'selh'):
+            if ('-%s-' % eng) in base or ('/%s/corpus/' % eng) in path:
+                body = text
+                if '# --- implementation trace' in text:
+                    body = text.split('# --- implementation trace')[1].split('# --- model trace')[0]
+                ops = '\n'.join(l for l in body.split('\n') if l and not l.startswith('#')) + '\n'
+                tp = self.rundir + '/replay.ops'
+                open(tp, 'w').write(ops)
+                rc, out, err = sh(['%s/%s' % (B, eng), 'run', tp], timeout=900)
+                open(self.rundir + '/replay.trace', 'w').write(out)
+                rc2, mout, merr = sh(['%s/ocaml/drv_%s' % (B, eng), self.rundir + '/replay.trace'], timeout=600)
+                fails = [l for l in out.split('\n') if l.startswith('ORACLE-FAIL')]
+                a = [l for l in out.split('\n') if not l.startswith('ORACLE-FAIL')]
+                for l in fails:
+                    print(l)
+                mism = a != mout.split('\n')
+                if mism:
+                    print('MISMATCH: model %s and implementation differ on this trace' % eng)
+                if fails or mism:
+                    print('VIOLATION property=%s replay=%s' % (self.pid, path))
+                    return 1
+                print('replay: no oracle failure, no mismatch')
+                return 0
         if '# --- implementation trace' in text:
             text = text.split('# --- implementation trace')[1].split('# --- model trace')[0]
         out, err = self.run_impl('\n'.join(l for l in text.split('\n') if not l.startswith('#')) + '\n', 'replay')
